@@ -1,7 +1,7 @@
 #!/bin/sh
 # tools/run_all.sh [tier] — run every claimed check sequentially, print the summary lines and exit codes
 T="${1:-quick}"
-cd /verif
+cd "$(dirname "$0")/.." || exit 1
 for i in 01 02 03 04 05 06 07 08 09 10 11 12 13 14 15 16 17 18 19 20; do
   s=$(date +%s)
   ./vcheck C$i --tier $T > /tmp/run_C$i.log 2>&1; rc=$?
